@@ -258,9 +258,11 @@ pub fn toml_match(expected: &Val, actual: &Val) -> bool {
                     o
                 },
             ];
-            orders.iter().any(|o| {
-                o.iter().zip(a.iter()).all(|(&i, (ak, av))| &e[i].0 == ak && toml_match(&e[i].1, av))
-            })
+            // Keys are compared first (cheap); the values are then compared once, for
+            // the first order whose key sequence fits. Trying every order recursively
+            // would be exponential in the depth when a deep leaf differs.
+            let Some(o) = orders.iter().find(|o| o.iter().zip(a.iter()).all(|(&i, (ak, _))| &e[i].0 == ak)) else { return false };
+            o.iter().zip(a.iter()).all(|(&i, (_, av))| toml_match(&e[i].1, av))
         }
         (Val::Seq(e), Val::Seq(a)) => e.len() == a.len() && e.iter().zip(a.iter()).all(|(x, y)| toml_match(x, y)),
         _ => expected == actual,
